@@ -265,6 +265,7 @@ void MEDDLY::prepost_set_mtrel<EOP, ATYPE>::_compute(int L,
     if (0==B || ATYPE::isUnreachable(av, A)) {
         ATYPE::setUnreachable(cv, C);
         EOP::accumulateOp(cv, av);
+        EOP::normalize(cv, C);
         C = resF->makeRedundantsTo(C, Clevel, L);
         return;
     }
